@@ -71,9 +71,9 @@ func sample(x []float64, d int) []float64 {
 
 func genNewtonCotes(g *vlib.G) {
 	for si, ss := range spacingSets {
-		maxM := vlib.Pick(g, 11, 13)
+		maxM := vlib.Pick(g, 12, 13)
 		if si == 1 {
-			maxM = vlib.Pick(g, 10, 12)
+			maxM = vlib.Pick(g, 11, 12)
 		}
 		for m := 1; m <= maxM; m++ {
 			for code := 0; code < pow3(m); code++ {
